@@ -244,6 +244,12 @@ def run(chk):
         crafted("param", H(0x200) + body + base.mp_u32(2) + ent + base.mp_str(b"m") + base.enc_tensor([3], 1, rand_words(rng, 3)), tgt, False)
         crafted("param", H(0x200) + body + base.mp_u32(1) + base.mp_bin(b"m") + base.enc_tensor(*st[0][1]), tgt, True)
         crafted("param", H(0x200) + body + base.mp_u32(1) + base.mp_str(b"b") + base.enc_tensor([2], 3, rand_words(rng, 6)), tgt, False)
+        # a minibatched statistics / value record that carries the payload of a single sample (and the converse)
+        for b2 in (2, 3):
+            sw = rand_words(rng, 2)
+            crafted("param", H(0x200) + body + base.mp_u32(1) + base.mp_str(b"m") + base.enc_shape([2], b2) + base.mp_bin(b"".join(struct.pack("<I", w) for w in sw)), tgt, True)
+            crafted("param", H(0x200) + base.enc_shape(dims, b2) + base.mp_bin(payload) + base.mp_u32(0), tgt, True)
+            crafted("param", H(0x200) + body + base.mp_u32(1) + base.mp_str(b"m") + base.enc_shape([2], 1) + base.mp_bin(b"".join(struct.pack("<I", w) for w in sw * b2)), tgt, True)
         # gigantic lengths
         crafted("param", H(0x200) + base.enc_shape(dims, 1) + b"\xc6\xff\xff\xff\xff" + payload, tgt, True)
         crafted("param", H(0x200) + base.enc_shape(dims, 1) + b"\xc6\x7f\xff\xff\xff" + payload, tgt, True)
